@@ -302,6 +302,8 @@ class Check:
             self.broken.append({"kind": "model-build", "log_tail": log[-1500:]})
             return None
         inp = "\n".join(json.dumps(r, ensure_ascii=False) for r in requests) + "\n"
+        if os.environ.get("VERIF_DUMP_REQS"):       # debugging aid: keep the request stream
+            Path(os.environ["VERIF_DUMP_REQS"]).write_text(inp)
         p = subprocess.run(["lake", "env", "lean", "--run", "Driver.lean"], cwd=LEAN, input=inp,
                            capture_output=True, text=True, timeout=timeout)
         lines = [l for l in p.stdout.splitlines() if l.strip()]
